@@ -223,7 +223,7 @@ func chunksV(chunks [][]byte) L {
 func readsV(reads []readResult) L {
 	out := L{}
 	for _, r := range reads {
-		out = append(out, L{Bb(r.Data), B(r.Err)})
+		out = append(out, L{Bb(r.Data), B(r.Err), int64(r.Up)})
 		if r.Err != "" {
 			break
 		}
